@@ -343,6 +343,9 @@ class BaseNestedSampler(ABC):
         sampler.model = model
         sampler.resumed = True
         sampler.checkpoint_callback = checkpoint_callback
+        # The pickled start time predates the checkpoint, do not count the
+        # time before the checkpoint twice or the time spent not running
+        sampler.sampling_start_time = datetime.datetime.now()
         return sampler
 
     @classmethod
